@@ -78,7 +78,7 @@ Definition cxyz : bytes := [120; 121; 122].
 (* (3) polling, removal after drain respected, but the re-created file is already longer than readBytes when
    the poller looks: "AB" then "z" (x and y skipped) *)
 Lemma poll_proviso_needed :
-  exists tr s, run (pstep true) (fun s l => match l with LRemove => drained [] (penv s) (pdel s) | _ => True end)
+  exists tr s, run (pstep true true) (fun s l => match l with LRemove => drained [] (penv s) (pdel s) | _ => True end)
                    (pinit (Some cAB) false) tr s /\
                forall rest, all (penv s) <> [] ++ pdel s ++ rest.
 Proof.
@@ -93,7 +93,7 @@ Qed.
 
 (* (4) the restrictions are satisfiable: a rotation, both readers, everything delivered once *)
 Lemma poll_rotation_example :
-  exists tr s, run (pstep true) (pok []) (pinit (Some cAB) false) tr s /\
+  exists tr s, run (pstep true true) (pok []) (pinit (Some cAB) false) tr s /\
                pdel s = cAB ++ cx /\ all (penv s) = cAB ++ cx /\ pfd s = Some (1%nat, 1%nat) /\ rb s = 1%nat.
 Proof.
   eexists. eexists. split.
